@@ -377,6 +377,14 @@ Arguments seed {St}.
 Arguments kept {St}.
 Arguments pick {St}.
 
+(* how the `random_state` the user passed arrives at the generator: unchanged (the regenerated
+   seed-flow fact of the estimator holds), or - the shape of a seed filtered by truthiness, `if
+   value` - with a zero seed dropped *)
+Definition truthy_filter (rs : option Z) : option Z :=
+  match rs with Some 0%Z => None | x => x end.
+Definition forwarded (unchanged : bool) (rs : option Z) : option Z :=
+  if unchanged then rs else truthy_filter rs.
+
 (* concrete streams used by the refutation witnesses and by the correspondence *)
 
 (* a linear congruential toy generator on Z *)
